@@ -73,12 +73,19 @@ pub fn gen(rng: &mut Rng, tier: Tier) -> Scn {
         s.spec.oti = if rng.chance(0.6) {
             // (with a small maximum block length the FDT is cut into several blocks: a small one of 2-3 symbols
             // next to large ones of 4 must be refused as well)
-            OtiSpec::new(Scheme::Raptor, *rng.pick(&[64u16, 128, 256, 400, 512, 700]), *rng.pick(&[4u32, 5, 8, 64, 64]), 1, true)
+            // (with large symbols an instance listing ONE object fits one symbol and can be published, one listing two
+            // needs two symbols and cannot: the second of two objects starting in the same read() is postponed)
+            OtiSpec::new(Scheme::Raptor, *rng.pick(&[64u16, 128, 256, 400, 512, 700, 1000, 1424]), *rng.pick(&[4u32, 5, 8, 64, 64]), 1, true)
         } else {
             OtiSpec::new(Scheme::Rs28, *rng.pick(&[64u16, 512, 1400]), 64, 0, true)
         };
-        if rng.chance(0.8) {
+        if rng.chance(0.5) {
             s.spec.full_fdt = true;
+        } else if rng.chance(0.5) {
+            // several sessions: objects start in the same read()
+            for q in s.spec.queues.iter_mut() {
+                q.1 = q.1.max(2);
+            }
         }
         // objects that can never be announced are never sent: do not poll for ever
         s.poll.max_polls = s.poll.max_polls.min(400);
